@@ -118,8 +118,12 @@ macro_rules! with_elem {
                 type $E = Val<TrkZ>;
                 $body
             }
-            _ => {
+            5 => {
                 type $E = Option<u32>;
+                $body
+            }
+            _ => {
+                type $E = ();
                 $body
             }
         }
@@ -445,7 +449,39 @@ impl ScriptElem for Option<u32> {
     }
 }
 
-pub const SELEMS: [&str; 6] = ["u64", "i32", "string", "trk", "list<u8>", "option<u32>"];
+/// `()`: a zero-sized element type WITHOUT clone/drop functions (only in the script drivers:
+/// lists made by scripts; the Rust-API drivers have the zero-sized tracked type)
+impl Elem for () {
+    const NAME: &'static str = "unit";
+    fn make(_key: u64) {}
+    fn canon(_key: u64) -> u64 {
+        0
+    }
+    fn key_of(&self) -> u64 {
+        0
+    }
+}
+
+impl ScriptElem for () {
+    const ROTO: &'static str = "()";
+    fn lit(_key: u64) -> String {
+        "()".into()
+    }
+    fn emit(v: &str) -> String {
+        format!("out_unit(); let u__: () = {v};")
+    }
+    fn shown(_key: u64) -> Vec<String> {
+        vec!["out_unit()".into()]
+    }
+    fn parse(ev: &Ev) -> Option<u64> {
+        match ev.f.as_str() {
+            "out_unit" => Some(0),
+            _ => None,
+        }
+    }
+}
+
+pub const SELEMS: [&str; 7] = ["u64", "i32", "string", "trk", "list<u8>", "option<u32>", "unit"];
 
 macro_rules! with_selem {
     ($id:expr, $E:ident => $body:expr) => {
@@ -470,8 +506,12 @@ macro_rules! with_selem {
                 type $E = List<u8>;
                 $body
             }
-            _ => {
+            5 => {
                 type $E = Option<u32>;
+                $body
+            }
+            _ => {
+                type $E = ();
                 $body
             }
         }
@@ -994,6 +1034,28 @@ impl<E: ScriptElem> Gen<E> {
                     let add = self.objs[o].clone();
                     self.objs[ow].extend(add);
                     self.tags.insert("script:for-push-other");
+                } else if self.rng.chance(1, 3) {
+                    // the loop is left from inside its body: `first_n` returns, `first_n_nested`
+                    // returns out of two loops, `first_n_opt` leaves through `?` on None, after
+                    // n elements were logged (n around 0, 1, len-1, len, len+1)
+                    let len = self.objs[o].len();
+                    let n = *self.rng.pick(&[0usize, 1, len.saturating_sub(1), len, len + 1]);
+                    let f = *self.rng.pick(&["first_n", "first_n_nested", "first_n_opt"]);
+                    if f == "first_n_opt" {
+                        let y = self.var();
+                        self.lines.push(format!("match first_n_opt({v}, {n}u64) {{ Some({y}) => {{ out_u64({y}); }} None => {{ out_bool(false); }} }}"));
+                    } else {
+                        self.lines.push(format!("{f}({v}, {n}u64);"));
+                    }
+                    let keys: Vec<u64> = self.objs[o].iter().take(n).copied().collect();
+                    for k in keys {
+                        self.exp.extend(E::shown(k));
+                    }
+                    if f == "first_n_opt" {
+                        self.exp.push(if n < len { "out_bool(false)".to_string() } else { format!("out_u64({}u64)", len) });
+                    }
+                    self.checks += 1;
+                    self.tags.insert(if n < len { "script:for-left-early" } else { "script:for-early-exit-not-taken" });
                 } else {
                     self.lines.push(format!("for {x} in {v} {{ {} }}", E::emit(&x)));
                     self.expect_elems(o);
@@ -1025,6 +1087,10 @@ impl<E: ScriptElem> Gen<E> {
         let mut src = String::new();
         src.push_str(&format!("fn push_it(l: List[{t}], x: {t}) {{\n    l.push(x);\n}}\n\n"));
         src.push_str(&format!("fn dump(l: List[{t}]) {{\n    out_u64(l.len());\n    for x in l {{ {} }}\n}}\n\n", E::emit("x")));
+        let e = E::emit("x");
+        src.push_str(&format!("fn first_n(l: List[{t}], n: u64) {{\n    let c = 0u64;\n    for x in l {{\n        if c == n {{\n            return;\n        }}\n        {e}\n        c = c + 1;\n    }}\n}}\n\n"));
+        src.push_str(&format!("fn first_n_nested(l: List[{t}], n: u64) {{\n    let c = 0u64;\n    for w in [1, 2] {{\n        for x in l {{\n            if c == n {{\n                return;\n            }}\n            if w == 1 {{\n                {e}\n                c = c + 1;\n            }}\n        }}\n        c = n;\n    }}\n}}\n\n"));
+        src.push_str(&format!("fn none_if(b: bool) -> u64? {{\n    if b {{ None }} else {{ Some(1) }}\n}}\n\nfn first_n_opt(l: List[{t}], n: u64) -> u64? {{\n    let c = 0u64;\n    for x in l {{\n        let k = none_if(c == n)?;\n        {e}\n        c = c + k;\n    }}\n    Some(c)\n}}\n\n"));
         src.push_str("fn main() {\n");
         for l in &self.lines {
             src.push_str("    ");
